@@ -18,18 +18,25 @@ import (
 //  3. the same instances, tokens and zones, all ACTIVE, writable, with a fresh heartbeat (the update to d is then a
 //     state-only one: the client keeps its token index).
 //
-// Each variant owns its token slices (nothing is shared with d).
+// Nothing is shared with d itself.
 func Variants(d *ring.Desc, now time.Time) []*ring.Desc {
 	ids := make([]string, 0, len(d.Ingesters))
 	for id := range d.Ingesters {
 		ids = append(ids, id)
 	}
 	sort.Strings(ids)
+	// Variants 2 and 3 share their token slices with each other (never with d): that is how successive values of a
+	// gossip store and clones made by a lifecycler look (Desc.Clone is shallow), and a client may treat "same storage"
+	// as "same registration".
+	shared := map[string][]uint32{}
+	for _, id := range ids {
+		shared[id] = append([]uint32(nil), d.Ingesters[id].Tokens...)
+	}
 	clone := func(edit func(i int, in *ring.InstanceDesc)) *ring.Desc {
 		o := ring.NewDesc()
 		for i, id := range ids {
 			in := d.Ingesters[id]
-			in.Tokens = append([]uint32(nil), in.Tokens...)
+			in.Tokens = shared[id]
 			edit(i, &in)
 			o.Ingesters[id] = in
 		}
